@@ -720,10 +720,11 @@ func (t c15Tab) String() string {
 }
 
 const c15K64 = 65536
+const c15M1 = 1 << 20
 
 // c15TableScheds: simplest first.  Sizes: 0 (table off: everything evicted, nothing indexed any more),
-// 128 (room for two of the ~60-byte entries of the scripts: entries are evicted as new ones come),
-// 4095 / 4096 / 4097 (around the size an endpoint starts with), 16 KiB, 64 KiB, 2^32-1 (the largest
+// 1 (a table that holds nothing), 128 (room for two of the ~60-byte entries of the scripts: entries are evicted as new ones come),
+// 4095 / 4096 / 4097 (around the size an endpoint starts with), 16 KiB, 64 KiB, 1 MiB, 2^32-1 (the largest
 // value the setting can carry).  Blocks: 0 (first block of the direction, table still empty),
 // 1 (table holds the entries of block 0, the block refers to them), 2.
 func c15TableScheds(thorough bool) []c15TableSched {
@@ -738,6 +739,10 @@ func c15TableScheds(thorough bool) []c15TableSched {
 		{"grow64k@0", c15K64, -1, ops(at(0, c15K64))},                  // grow in the very first block
 		{"late-settings-grow64k@1", c15K64, 1, ops(at(1, c15K64))},     // the SETTINGS that allow it arrive mid-connection
 		{"growmax@1", 0xFFFFFFFF, -1, ops(at(1, 0xFFFFFFFF))},          // the largest size there is
+		{"grow4097@1", 4097, -1, ops(at(1, 4097))},                     // one byte more than an endpoint starts with
+		{"one@1", -1, -1, ops(at(1, 1))},                               // a table no entry fits into
+		{"grow1m@2", c15M1, -1, ops(at(2, c15M1))},                     // 1 MiB, announced in the block of a later stream
+		{"zero@1-growmax@2", 0xFFFFFFFF, -1, ops(at(1, 0), at(2, 0xFFFFFFFF))}, // shrink to nothing, then to the maximum
 	}
 	if thorough {
 		out = append(out,
@@ -750,7 +755,14 @@ func c15TableScheds(thorough bool) []c15TableSched {
 			c15TableSched{"zero@2", -1, -1, ops(at(2, 0))},
 			c15TableSched{"same4096@1", -1, -1, ops(at(1, 4096))}, // an update that changes nothing
 			c15TableSched{"shrink4095@1", -1, -1, ops(at(1, 4095))},
-			c15TableSched{"grow4097@1", 4097, -1, ops(at(1, 4097))}, // just above the initial size
+			c15TableSched{"one@0", -1, -1, ops(at(0, 1))},
+			c15TableSched{"grow4097@0", 4097, -1, ops(at(0, 4097))},
+			c15TableSched{"grow1m@0", c15M1, -1, ops(at(0, c15M1))},
+			c15TableSched{"growmax@0", 0xFFFFFFFF, -1, ops(at(0, 0xFFFFFFFF))},
+			c15TableSched{"shrink4095@1-grow4097@2", 4097, -1, ops(at(1, 4095), at(2, 4097))},
+			c15TableSched{"one-regrow1m@1", c15M1, -1, ops(at(1, 1, c15M1))},
+			c15TableSched{"advertisedmax-not-taken-up", 0xFFFFFFFF, -1, nil},
+			c15TableSched{"late-settings-growmax@2", 0xFFFFFFFF, 2, ops(at(2, 0xFFFFFFFF))},
 			c15TableSched{"grow16k@0-grow64k@2", c15K64, -1, ops(at(0, 16384), at(2, c15K64))},
 			c15TableSched{"grow64k@2", c15K64, -1, ops(at(2, c15K64))},
 			c15TableSched{"zero-regrow64k@1", c15K64, -1, ops(at(1, 0, c15K64))},
@@ -874,7 +886,12 @@ type c15Shape struct {
 	ReqPieces   int  `json:"reqpieces,omitempty"`   // >= 3: the first request message is spread over that many DATA frames (overrides MsgMode)
 	RespPieces  int  `json:"resppieces,omitempty"`  // >= 3: the first response message is spread over that many DATA frames
 	Glue        bool `json:"glue,omitempty"`        // with ReqPieces / RespPieces: the second message starts in the DATA frame that carries the last piece of the first
-	LateData    bool `json:"latedata,omitempty"`    // late variants: a response DATA frame (one more message) is among the late frames
+	// request trailers (RFC 9113 section 8.1: a request may end with a trailer section): 0 none; 1: the request side ends with a
+	// header block of its own (HEADERS with END_STREAM after the DATA frames, instead of END_STREAM on DATA / on the request
+	// HEADERS); 2: that block as HEADERS + CONTINUATION.  Without Bidi the block travels BEFORE the response headers, with
+	// Bidi after them.
+	ReqTrail int  `json:"reqtrail,omitempty"`
+	LateData bool `json:"latedata,omitempty"` // late variants: a response DATA frame (one more message) is among the late frames
 	// padding and priority (RFC 9113 sections 6.1, 6.2, 6.3): legal on any DATA / HEADERS frame, never part of a message
 	Pad     int  `json:"pad,omitempty"`     // 0: no padding; k+1: every DATA frame of the call carries the PADDED flag with pad length k (k = 0, 1, 7, 255)
 	PadHdr  bool `json:"padhdr,omitempty"`  // with Pad: every HEADERS frame of the call is PADDED too
@@ -923,6 +940,9 @@ func (s c15Shape) tag() string {
 	if s.ReqPieces >= 3 || s.RespPieces >= 3 {
 		v += "+message-in-3-or-more-data-frames"
 	}
+	if s.ReqTrail > 0 {
+		v += "+request-trailers"
+	}
 	if s.padded() {
 		v += "+padded-frames"
 	}
@@ -952,6 +972,7 @@ type c15Want struct {
 	Path     string
 	ReqHdr   map[string][]string
 	ReqMsgs  []c15Msg
+	ReqTrail map[string][]string // request trailers, nil = none sent
 	HasResp  bool
 	Status   int
 	RespHdr  map[string][]string
@@ -1026,6 +1047,13 @@ func c15TrailerFields(idx int) []hpack.HeaderField {
 		{Name: "grpc-status", Value: "0"},
 		{Name: "x-shared", Value: "same-for-every-call"},
 		{Name: "x-trail", Value: "trail-" + c15Letters[idx]},
+	}
+}
+
+func c15ReqTrailerFields(idx int) []hpack.HeaderField {
+	return []hpack.HeaderField{
+		{Name: "x-req-checksum", Value: "sum-" + c15Letters[idx]},
+		{Name: "x-shared", Value: "same-for-every-call"},
 	}
 }
 
@@ -1284,7 +1312,8 @@ func c15CallItemsPlain(sh c15Shape, idx int) ([]c15Item, c15Want) {
 	case "rstc-early", "goaway", "rstc-late-hdr", "goaway-late":
 		reqEnds = false
 	}
-	endOnHeaders := reqEnds && len(reqData) == 0 && sh.ReqEnd == 0
+	reqTrail := reqEnds && sh.ReqTrail > 0 // END_STREAM travels on a trailer block of the request
+	endOnHeaders := reqEnds && len(reqData) == 0 && sh.ReqEnd == 0 && !reqTrail
 	addBlock(c15Item{Dir: c15DirReq, Kind: 'H', Stream: id, Fields: reqFields, EndStream: endOnHeaders, Opens: true}, sh.reqConts())
 	respHeaders := func() {
 		want.HasResp, want.Status = true, 200
@@ -1324,10 +1353,15 @@ func c15CallItemsPlain(sh c15Shape, idx int) ([]c15Item, c15Want) {
 	}
 	for i, d := range reqData {
 		last := i == len(reqData)-1
-		add(c15Item{Dir: c15DirReq, Kind: 'D', Stream: id, Data: d, EndStream: reqEnds && last && sh.ReqEnd == 0})
+		add(c15Item{Dir: c15DirReq, Kind: 'D', Stream: id, Data: d, EndStream: reqEnds && last && sh.ReqEnd == 0 && !reqTrail})
 	}
 	if reqEnds && sh.ReqEnd == 1 {
-		add(c15Item{Dir: c15DirReq, Kind: 'D', Stream: id, EndStream: true})
+		add(c15Item{Dir: c15DirReq, Kind: 'D', Stream: id, EndStream: !reqTrail})
+	}
+	if reqTrail {
+		f := c15ReqTrailerFields(idx)
+		want.ReqTrail = c15Canon(f)
+		addBlock(c15Item{Dir: c15DirReq, Kind: 'H', Stream: id, Fields: f, EndStream: true}, sh.ReqTrail-1)
 	}
 
 	switch sh.Variant {
@@ -1820,6 +1854,21 @@ func c15Judge(res *c15Result, wants []c15Want, shapes []c15Shape) []c15Verdict {
 				continue
 			}
 		}
+		// request trailers
+		if gotRT := map[string][]string(rq.Trailer); !c15HdrEqual(gotRT, w.ReqTrail) {
+			if w.HasResp && c15HdrEqual(gotRT, w.RespHdr) || w.Trailers != nil && c15HdrEqual(gotRT, w.Trailers) {
+				bad("trace-wrong-request-trailers", fmt.Sprintf("a header block of the response is recorded as the request's trailers %v, want %v", gotRT, w.ReqTrail))
+			} else {
+				bad("trace-wrong-request-trailers", fmt.Sprintf("request trailers %v, want %v", gotRT, w.ReqTrail))
+			}
+			continue
+		}
+		// order of the events: nothing of the response before the request started, no response message before the
+		// response headers, nothing of a side after its end
+		if why := c15EventOrder(t); why != "" {
+			bad("trace-wrong-event-order", why)
+			continue
+		}
 		// end or reset
 		if w.Reset != (t.Err != nil) {
 			bad("trace-wrong-end", fmt.Sprintf("trace error %v, want reset=%v", t.Err, w.Reset))
@@ -1850,6 +1899,38 @@ func c15Judge(res *c15Result, wants []c15Want, shapes []c15Shape) []c15Verdict {
 		}
 	}
 	return out
+}
+
+// c15EventOrder: "request and response messages in order" — within a trace the request's events are RequestStart,
+// messages, at most one end; the response's are ResponseStart, messages, one end; "" = in order.
+func c15EventOrder(t *Trace) string {
+	reqEnd, respStart, respEnd := false, false, false
+	for i, ev := range t.Events {
+		switch ev.(type) {
+		case *RequestStart:
+			if i != 0 {
+				return fmt.Sprintf("event %d is a second RequestStart", i)
+			}
+		case *RequestBodyData:
+			if reqEnd {
+				return fmt.Sprintf("event %d: a request message after the end of the request body", i)
+			}
+		case *RequestBodyEnd:
+			reqEnd = true
+		case *ResponseStart:
+			if respStart {
+				return fmt.Sprintf("event %d is a second ResponseStart", i)
+			}
+			respStart = true
+		case *ResponseBodyData:
+			if respEnd {
+				return fmt.Sprintf("event %d: a response message after the end of the response body", i)
+			}
+		case *ResponseBodyEnd:
+			respEnd = true
+		}
+	}
+	return ""
 }
 
 func c15OutcomeClass(res *c15Result) string {
